@@ -15,7 +15,13 @@ RULE = ('selmap: random histories of set/pop/clear/copy over 1-3 maps with queri
         "macro-spelling (implementation only): the spellings of a macro's parameter ('%NAME', 'NAME/gin.macro.value', the tuple "
         "key, 'NAME/macro.value', config text, finalize hooks) written and read in every combination while other configurables "
         "called `macro` / `macros` / `xmacro` are registered before or after the parse; non-trivial = such an entry exists and "
-        '>= 2 different spellings write.')
+        '>= 2 different spellings write. '
+        'registry-moves (implementation only): functions, classes and methods registered before their class (default module, '
+        "module=<class selector>, unrelated module) in any order; registering the class removes the method's provisional name - which "
+        'may be a proper suffix of another registered name, or the same string as the final name - and after every step every '
+        'suffix spelling of every entry is written and read through bind (string / tuple key) / config text / finalize hook / query / '
+        'get_bindings / get_configurable / reference / a call, with and without a scope, ambiguous and unknown names are rejected and '
+        'config_str names are minimal; non-trivial = a class registration moved a method and some entry has >= 2 spellings.')
 TRUSTED_BASE = [
     'Coq 8.16.1 kernel (coqc; coqchk in the thorough tier); vm_compute used in refutation witnesses and in the correspondence run; no native_compute',
     'axioms: none (Print Assumptions: Closed under the global context for every theorem of Props/C08.v)',
@@ -72,6 +78,17 @@ class SelMap(Engine):
         [['set', 0, 'a.b', '1'], ['set', 0, 'c..a.b', 'bad'], ['set', 0, 'b.1a.x.b', 'bad'], ['set', 0, '.c.b', 'bad'],
          ['set', 0, 'a.b-c.x.a.b', 'bad'], ['minimal', 0, 'a.b'], ['matching', 0, 'b'], ['getmatch', 0, 'b'],
          ['pop', 0, 'c.a.b'], ['pop', 0, 'a.b'], ['len', 0], ['items', 0], ['set', 0, 'x.c.b', '2'], ['minimal', 0, 'x.c.b']],
+        # removal of a name that is a PROPER SUFFIX of another stored name (an inner node of the tree, not a leaf): the longer
+        # names stay addressable by every suffix - one level below, two levels below, several of them, and in a copy
+        [['set', 0, 'b.c', '1'], ['set', 0, 'a.b.c', '2'], ['pop', 0, 'b.c'], ['matching', 0, 'b.c'], ['matching', 0, 'c'],
+         ['getmatch', 0, 'c'], ['getmatch', 0, 'b.c'], ['minimal', 0, 'a.b.c'], ['contains', 0, 'a.b.c'], ['items', 0]],
+        [['set', 0, 'c', '1'], ['set', 0, 'x.a.b.c', '2'], ['set', 0, 'b.b.c', '3'], ['set', 0, 'a.x', '4'], ['pop', 0, 'c'],
+         ['matching', 0, 'c'], ['matching', 0, 'b.c'], ['getmatch', 0, 'a.b.c'], ['minimal', 0, 'x.a.b.c'],
+         ['minimal', 0, 'b.b.c'], ['set', 0, 'b.c', '5'], ['pop', 0, 'b.c'], ['matching', 0, 'b.c'], ['minimal', 0, 'b.b.c'],
+         ['len', 0]],
+        [['set', 0, 'a.b', '1'], ['set', 0, 'c.a.b', '2'], ['copy', 0], ['pop', 1, 'a.b'], ['getmatch', 1, 'b'],
+         ['minimal', 1, 'c.a.b'], ['matching', 0, 'b'], ['minimal', 0, 'c.a.b'], ['pop', 0, 'c.a.b'], ['getmatch', 0, 'b'],
+         ['minimal', 0, 'a.b'], ['items', 0], ['items', 1]],
     ]
 
   def _name(self, rng, pool):
@@ -118,6 +135,10 @@ class SelMap(Engine):
           pool.append(n)
       elif x < 0.72:
         n = rng.choice(pool) if rng.random() < 0.9 else self._name(rng, pool)
+        # a name that is a proper suffix of another stored name is an inner node of the tree: removing it is not removing a leaf
+        inner = [a for a in pool if any(b.endswith('.' + a) for b in pool)]
+        if inner and rng.random() < 0.4:
+          n = rng.choice(inner)
         ops.append(['pop', r, n])
         if n in pool:
           pool.remove(n)
@@ -164,42 +185,57 @@ class SelMap(Engine):
     return C.clist(out)
 
   # ---- implementation side + P_impl
+  @staticmethod
+  def _outcome(fn, *args, **kw):
+    """whatever the map does is an observation: ('ok', result) or ('raised', exception type)"""
+    try:
+      return ('ok', fn(*args, **kw))
+    except Exception as e:  # pylint: disable=broad-except
+      return ('raised', type(e).__name__)
+
   def _snapshot(self, sm):
     names = [k for k, _ in sm.items()]
     qs = sorted({s for n in names for s in suffixes(n)})
     snap = {'items': list(sm.items())}
     for q in qs:
-      snap['m:' + q] = sorted(sm.matching_selectors(q))
+      snap['m:' + q] = self._outcome(lambda: sorted(sm.matching_selectors(q)))
     for n in names:
-      snap['min:' + n] = sm.minimal_selector(n)
+      snap['min:' + n] = self._outcome(sm.minimal_selector, n)
     return snap
 
   def _check_map(self, sm, fails, where):
     names = [k for k, _ in sm.items()]
     qs = sorted({s for n in names for s in suffixes(n)} | {i + '.' + n for n in names for i in IDS[:2]})
     for q in qs:
-      got = sorted(sm.matching_selectors(q))
       want = spec_matches(names, q)
-      if got != want:
+      got = self._outcome(lambda: sorted(sm.matching_selectors(q)))
+      if got != ('ok', want):
         fails.append(('matching-spec', '%s: matching_selectors(%r)=%r, stored names %r require %r' %
-                      (where, q, got, names, want)))
+                      (where, q, got[1] if got[0] == 'ok' else got, names, want)))
         return
       try:
         gm = sm.get_match(q, default=('<default>',))
         gm = 'default' if gm == ('<default>',) else ('value', gm)
       except KeyError:
         gm = 'ambiguous'
+      except Exception as e:  # pylint: disable=broad-except
+        gm = ('raised', type(e).__name__)
       exp = 'default' if not want else 'ambiguous' if len(want) > 1 else ('value', dict(sm.items())[want[0]])
       if gm != exp:
         fails.append(('get-match-spec', '%s: get_match(%r) -> %r, expected %r' % (where, q, gm, exp)))
         return
     for n in names:
-      r = sm.minimal_selector(n)
-      if r not in suffixes(n) or sm.matching_selectors(r) != [n]:
+      got = self._outcome(sm.minimal_selector, n)
+      if got[0] != 'ok':
+        fails.append(('minimal-wrong', '%s: minimal_selector(%r) of the stored name %r raises %s; names=%r' %
+                      (where, n, n, got[1], names)))
+        return
+      r = got[1]
+      if r not in suffixes(n) or self._outcome(sm.matching_selectors, r) != ('ok', [n]):
         fails.append(('minimal-wrong', '%s: minimal_selector(%r)=%r does not resolve back' % (where, n, r)))
         return
       for s in suffixes(n):
-        if len(s) < len(r) and sm.matching_selectors(s) == [n]:
+        if len(s) < len(r) and self._outcome(sm.matching_selectors, s) == ('ok', [n]):
           fails.append(('minimal-not-minimal',
                         '%s: minimal_selector(%r)=%r but shorter suffix %r already resolves uniquely; names=%r'
                         % (where, n, r, s, names)))
@@ -246,6 +282,9 @@ class SelMap(Engine):
           raise AssertionError(kind)
       except (KeyError, ValueError) as e:
         o = C.err(e)
+      except Exception as e:  # pylint: disable=broad-except
+        o = C.err(e)
+        fails.append(('unexpected-exception', 'op %d %r on map %d raises %s: %s' % (step, op, r, type(e).__name__, e)))
       obs.append(o)
       if kind in ('set', 'pop', 'clear'):
         if copied:
@@ -777,4 +816,408 @@ class ReportedNames(Engine):
             'tags': ['method-class-name-shared' if meth_shared else 'shared-tail' if shared else 'distinct']}
 
 
-ENGINES = [SelMap(), Spelling(), MacroSpelling(), ReportedNames()]
+class RegistryMoves(Engine):
+  """Gin's registry of configurables is itself a map from dotted names with a history of ADDITIONS AND REMOVALS: a method
+  registered with `gin.register` before its class is known as `<module>.<method>` (the Python module of the class, or the
+  `module=` given with the registration), and moves to `<class selector>.<method>` when its class is registered
+  (`gin.register(cls, module=...)` / `gin.external_configurable`): the provisional name is removed, the final one added.  The
+  provisional name can be a proper dotted suffix of another registered name (a function `pkg.<module>.<method>`), the final
+  name can be the SAME string as the provisional one (method registered with `module=<class selector>`, which Gin permits),
+  and a class registration Gin refuses (method registered under an unrelated module) leaves everything as it was.
+  After every step the set of complete names is known from the steps alone (not from Gin's bookkeeping), and the statement
+  asks, for every registered entry and every dotted suffix of its complete name:
+    * a suffix matching exactly one complete name (or equal to one) resolves to that entry, through every API: a value bound
+      through one such spelling (bind_parameter with a string or a tuple key, config text, a finalize hook; with or without a
+      scope) is what query_parameter / get_bindings give through every other spelling, what a call in that scope receives
+      and what a reference `@spelling` delivers - and the parameters of all OTHER entries keep their values;
+    * a suffix matching several complete names is rejected as ambiguous, an extended name matching none as unknown;
+    * the names config_str() reports are the shortest such spelling and resolve back.
+  (Gin's documented exception: a method is never addressed by its bare name without the class; such spellings are skipped.)
+  Implementation only: the Coq model of C08 has no registration of classes and methods."""
+  name = 'registry-moves'
+  model = False
+  PYMODS = ['mod', 'lib.mod', 'Worker']
+  FN_NAMES = ['run', 'go', 'Worker', 'Solo']
+  CLASSES = ['Worker', 'Solo']
+  METHODS = ['run', 'go']
+  MODULES = ['pkg', 'lib', 'pkg.lib', 'mod', 'pkg.mod', 'pkg.lib.mod', 'pkg.Worker', 'lib.Solo', 'x.pkg.mod']
+  SCOPES = ['', '', 's1', 's1/s2']
+
+  def budget(self, tier):
+    return 120 if tier == 'quick' else 4000
+
+  # ---- what the steps mean, from Gin's documentation of register / external_configurable (the independent side)
+  class Names:
+    def __init__(self, pymod):
+      self.pymod = pymod
+      self.entries = []       # dict(full, kind 'fn'|'cls'|'meth', arg, cname, mname, explicit, provisional)
+      self.classes = {}       # cname -> dict(methods=[entry], registered=bool)
+
+    def names(self):
+      return [e['full'] for e in self.entries]
+
+    def add_fn(self, module, name):
+      full = module + '.' + name
+      if full in self.names():
+        return 'clash'
+      self.entries.append({'full': full, 'kind': 'fn', 'arg': 'x', 'provisional': False})
+      return 'ok'
+
+    def def_cls(self, cname, methods):
+      if cname in self.classes:
+        return 'clash'
+      new = [((ex or self.pymod) + '.' + m) for m, ex in methods]
+      if len(set(new)) < len(new) or set(new) & set(self.names()):
+        return 'clash'
+      ms = []
+      for (m, ex), full in zip(methods, new):
+        e = {'full': full, 'kind': 'meth', 'arg': 'x', 'cname': cname, 'mname': m, 'explicit': ex, 'provisional': True}
+        self.entries.append(e)
+        ms.append(e)
+      self.classes[cname] = {'methods': ms, 'registered': False}
+      return 'ok'
+
+    def reg_cls(self, cname, module):
+      """'ok' (returns the moved methods through self.moved), 'refused' (Gin's documented ValueError; nothing changes),
+      'clash' (not an input of this engine)"""
+      c = self.classes.get(cname)
+      if c is None or c['registered']:
+        return 'clash'
+      sel = module + '.' + cname
+      if any(m['explicit'] not in (None, self.pymod, sel) for m in c['methods']):
+        return 'refused'
+      others = [e['full'] for e in self.entries if e not in c['methods']]
+      if sel in others or any(sel + '.' + m['mname'] in others for m in c['methods']):
+        return 'clash'
+      self.moved = [(m['full'], sel + '.' + m['mname']) for m in c['methods']]
+      for m in c['methods']:
+        m['full'], m['provisional'] = sel + '.' + m['mname'], False
+      self.entries.append({'full': sel, 'kind': 'cls', 'arg': 'k', 'cname': cname, 'provisional': False})
+      c['registered'] = True
+      return 'ok'
+
+    def spellings(self, e):
+      """(the suffixes of e's complete name that have to resolve to e, those that have to be rejected as ambiguous)"""
+      names = self.names()
+      good, amb = [], []
+      for s in suffixes(e['full']):
+        m = spec_matches(names, s)
+        if m == [e['full']]:
+          if e['kind'] == 'meth' and not e['provisional'] and '.' not in s:
+            continue            # documented: a method is not addressed without its class
+          good.append(s)
+        elif len(m) > 1:
+          amb.append(s)
+      return good, amb
+
+  def corpus(self):
+    chk = [['check', ''], ['check', 's1']]
+    return [
+        # the provisional name of a method ('mod.run') is a proper suffix of a registered function's name; registering the class
+        # removes it
+        {'pymod': 'mod', 'steps': [['fn', 'pkg.mod', 'run'], ['fn', 'lib', 'go'], ['defcls', 'Worker', [['run', None], ['go', None]]],
+                                   chk[0], ['regcls', 'Worker', 'lib', 'register'], chk[0], chk[1]]},
+        # two levels: 'lib.mod.run' below 'x.pkg.lib.mod.run'; the function is registered AFTER the method
+        {'pymod': 'lib.mod', 'steps': [['defcls', 'Solo', [['run', None]]], ['fn', 'pkg.lib.mod', 'run'], ['fn', 'mod', 'run'], chk[1],
+                                       ['regcls', 'Solo', 'pkg', 'external'], chk[0], chk[1]]},
+        # a method registered with module=<class selector>: provisional and final name are the same string; its sibling moves
+        {'pymod': 'mod', 'steps': [['defcls', 'Worker', [['run', 'pkg.Worker'], ['go', None]]], ['defcls', 'Solo', [['run', 'lib.Solo']]],
+                                   chk[0], ['regcls', 'Worker', 'pkg', 'register'], chk[0], ['fn', 'lib', 'run'],
+                                   ['regcls', 'Solo', 'lib', 'external'], chk[1], chk[0]]},
+        # a refused class registration (method registered under an unrelated module) changes nothing
+        {'pymod': 'mod', 'steps': [['fn', 'pkg.mod', 'go'], ['defcls', 'Worker', [['run', 'other.place'], ['go', None]]], chk[0],
+                                   ['regcls', 'Worker', 'lib', 'register'], chk[0], chk[1]]},
+    ]
+
+  def gen(self, rng, tier):
+    pymod = rng.choice(self.PYMODS)
+    nm = self.Names(pymod)
+    planned = {}
+    steps = []
+    fn_modules = self.MODULES + [pymod, 'pkg.' + pymod, 'x.pkg.' + pymod]
+
+    def maybe_check():
+      if rng.random() < 0.7:
+        steps.append(['check', rng.choice(self.SCOPES)])
+
+    for _ in range(rng.randint(2, 7)):
+      r = rng.random()
+      undef = [c for c in self.CLASSES if c not in nm.classes]
+      unreg = [c for c, d in nm.classes.items() if not d['registered']]
+      if r < 0.35 or (not undef and not unreg):
+        # a function; often one whose name extends the provisional name of a method
+        module, name = rng.choice(fn_modules), rng.choice(self.FN_NAMES)
+        if rng.random() < 0.5:
+          module, name = rng.choice(['pkg.', 'x.pkg.', 'lib.', '']) + pymod, rng.choice(self.METHODS)
+        if nm.add_fn(module, name) == 'ok':
+          steps.append(['fn', module, name])
+          maybe_check()
+      elif undef and (r < 0.65 or not unreg):
+        cname = rng.choice(undef)
+        planned[cname] = rng.choice(self.MODULES[:6])
+        methods = []
+        for m in rng.sample(self.METHODS, rng.choice([1, 1, 2])):
+          x = rng.random()
+          methods.append([m, None if x < 0.55 else planned[cname] + '.' + cname if x < 0.9 else
+                          rng.choice(['other.place', 'pkg', cname])])
+        if nm.def_cls(cname, [tuple(m) for m in methods]) == 'ok':
+          steps.append(['defcls', cname, methods])
+          maybe_check()
+      else:
+        cname = rng.choice(unreg)
+        module = planned[cname] if rng.random() < 0.85 else rng.choice(self.MODULES)
+        if nm.reg_cls(cname, module) in ('ok', 'refused'):
+          steps.append(['regcls', cname, module, rng.choice(['register', 'register', 'external'])])
+          steps.append(['check', rng.choice(self.SCOPES)])
+    for cname, d in list(nm.classes.items()):
+      if not d['registered'] and rng.random() < 0.7 and nm.reg_cls(cname, planned[cname]) in ('ok', 'refused'):
+        steps.append(['regcls', cname, planned[cname], 'register'])
+        maybe_check()
+    steps.append(['check', rng.choice(self.SCOPES)])
+    return {'pymod': pymod, 'steps': steps}
+
+  def shrink(self, case):
+    st = case['steps']
+    for i in range(len(st)):
+      yield dict(case, steps=st[:i] + st[i + 1:])
+    for i, step in enumerate(st):
+      if step[0] == 'defcls':
+        for j, (m, ex) in enumerate(step[2]):
+          if len(step[2]) > 1:
+            yield dict(case, steps=st[:i] + [['defcls', step[1], step[2][:j] + step[2][j + 1:]]] + st[i + 1:])
+          if ex is not None:
+            yield dict(case, steps=st[:i] + [['defcls', step[1], step[2][:j] + [[m, None]] + step[2][j + 1:]]] + st[i + 1:])
+      if step[0] == 'check' and step[1]:
+        yield dict(case, steps=st[:i] + [['check', '']] + st[i + 1:])
+
+  def impl(self, case):
+    gin = C.fresh_gin()
+    fails, tags = [], set()
+    nm = self.Names(case['pymod'])
+    pyobj = {}          # cname -> the Python class
+    last = {}           # (complete name at the time, scope) -> value bound last
+    by_value = {}
+    counter = [100]
+    moved_any = [False]
+    rounds = [0]
+
+    def holder(value=None):
+      return value
+    gin.external_configurable(holder, name='c08holder', module='c08m')
+
+    def outcome(fn):
+      try:
+        return ('ok', fn())
+      except Exception as ex:  # pylint: disable=broad-except
+        return ('raised', '%s: %s' % (type(ex).__name__, str(ex).split('\n')[0][:160]))
+
+    def fail(kind, text):
+      if len(fails) < 6:
+        fails.append((kind, text + '; registered names (from the steps): %r' % sorted(nm.names())))
+
+    def deliver(e, configurable_, scope):
+      """what a call of entry `e` receives for its parameter, `configurable_` being what Gin handed out for it"""
+      if e['kind'] == 'fn':
+        with gin.config_scope(scope or None):
+          return configurable_()
+      if e['kind'] == 'cls':
+        with gin.config_scope(scope or None):
+          return configurable_().k
+      if e['provisional']:
+        with gin.config_scope(scope or None):
+          return configurable_(None)
+      cls_full = e['full'].rsplit('.', 1)[0]
+      obj = gin.get_configurable(cls_full)()            # made outside the scope
+      with gin.config_scope(scope or None):
+        return configurable_(obj)
+
+    def deliver_obj(e, scope):
+      """the method called on an instance of the registered class"""
+      cls_full = e['full'].rsplit('.', 1)[0]
+      obj = gin.get_configurable(cls_full)()
+      with gin.config_scope(scope or None):
+        return getattr(obj, e['mname'])()
+
+    def unlock():
+      gin.config._set_config_is_locked(False)  # pylint: disable=protected-access
+
+    def write(api, key_str, scope, sel, arg, v):
+      if api == 'bind':
+        return outcome(lambda: gin.bind_parameter(key_str, v))
+      if api == 'tuple':
+        return outcome(lambda: gin.bind_parameter((scope, sel, arg), v))
+      if api == 'text':
+        return outcome(lambda: gin.parse_config('%s = %d\n' % (key_str, v)))
+      saved = list(gin.config._FINALIZE_HOOKS)  # pylint: disable=protected-access
+      gin.config.register_finalize_hook(lambda config: {key_str: v})
+      try:
+        return outcome(gin.finalize)
+      finally:
+        gin.config._FINALIZE_HOOKS[:] = saved  # pylint: disable=protected-access
+        unlock()
+
+    APIS = ['bind', 'text', 'tuple', 'hook']
+
+    def check(scope):
+      rounds[0] += 1
+      pre = scope + '/' if scope else ''
+      for e in list(nm.entries):
+        good, amb = nm.spellings(e)
+        arg = e['arg']
+        what = '%s %r' % ({'fn': 'function', 'cls': 'class', 'meth': 'method'}[e['kind']], e['full'])
+        if len(good) >= 2:
+          tags.add('several-spellings')
+        for s in good:
+          counter[0] += 1
+          v = counter[0]
+          api = APIS[counter[0] % len(APIS)]
+          res = write(api, pre + s + '.' + arg, scope, s, arg, v)
+          if res[0] != 'ok':
+            fail('spelling-does-not-resolve', '%s: %r is a suffix of its complete name matching no other entry, but binding '
+                 '%r (%s) gives %r' % (what, s, pre + s + '.' + arg, api, res))
+            continue
+          last[(e['full'], scope)] = v
+          by_value[v] = (e, scope)
+          for t in good:
+            reads = [('query_parameter(%r)' % (pre + t + '.' + arg), outcome(lambda: gin.query_parameter(pre + t + '.' + arg))),
+                     ('get_bindings(%r).get(%r)' % (pre + t, arg), outcome(lambda: gin.get_bindings(pre + t).get(arg))),
+                     ('a call of get_configurable(%r)' % t, outcome(lambda: deliver(e, gin.get_configurable(t), scope)))]
+            ref = outcome(lambda: gin.parse_config('c08m.c08holder.value = @%s\n' % (pre + t)))
+            if ref[0] == 'ok':
+              # a scoped reference applies its scope itself
+              ref = outcome(lambda: deliver(e, gin.get_configurable('c08m.c08holder')(), ''))
+              reads.append(('a call through the reference @%s' % (pre + t), ref))
+            else:
+              reads.append(('the reference @%s' % (pre + t), ref))
+            outcome(lambda: gin.bind_parameter('c08m.c08holder.value', None))
+            for how, got in reads:
+              if got != ('ok', v):
+                fail('spelling-dependent-key', '%s: %s.%s bound to %d through the spelling %r (%s); %s gives %r' %
+                     (what, pre + e['full'], arg, v, s, api, how, got))
+          if e['kind'] == 'meth' and not e['provisional']:
+            got = outcome(lambda: deliver_obj(e, scope))
+            if got != ('ok', v):
+              fail('binding-not-delivered', '%s: %s.%s bound to %d through the spelling %r (%s); the method called on an instance '
+                   'of the registered class receives %r' % (what, pre + e['full'], arg, v, s, api, got))
+          # every other parameter keeps its value
+          for (full2, sc2), v2 in list(last.items()):
+            if full2 != e['full'] or sc2 != scope:
+              e2 = [x for x in nm.entries if x['full'] == full2]
+              if not e2:
+                continue
+              key2 = (sc2 + '/' if sc2 else '') + full2 + '.' + e2[0]['arg']
+              got = outcome(lambda: gin.query_parameter(key2))
+              if got != ('ok', v2):
+                fail('other-entry-changed', 'binding %r (%s) changed another parameter: query_parameter(%r) gives %r, was %d' %
+                     (pre + s + '.' + arg, what, key2, got, v2))
+        for s in amb:
+          for how, got in (('bind_parameter', outcome(lambda: gin.bind_parameter(pre + s + '.' + arg, 1))),
+                           ('query_parameter', outcome(lambda: gin.query_parameter(pre + s + '.' + arg)))):
+            if got[0] != 'raised' or 'mbiguous' not in got[1]:
+              fail('ambiguous-name-accepted', '%s(%r): %r matches several registered names and gives %r' %
+                   (how, pre + s + '.' + arg, s, got))
+        got = outcome(lambda: gin.query_parameter(pre + 'zz.' + e['full'] + '.' + arg))
+        if got[0] != 'raised' or 'mbiguous' in got[1]:
+          fail('unknown-name-accepted', 'query_parameter(%r) gives %r' % (pre + 'zz.' + e['full'] + '.' + arg, got))
+      # reported names
+      text = outcome(gin.config_str)
+      if text[0] != 'ok':
+        fail('reported-name-does-not-resolve-back', 'config_str() gives %r' % (text,))
+        return
+      lines = text[1].split('\n')
+      seen = set()
+      for ln, line in enumerate(lines):
+        if not line or line[0] in '# ' or ' = ' not in line:
+          continue
+        key, _, lit = line.partition(' = ')
+        if lit.strip() == '\\' and ln + 1 < len(lines):
+          lit = lines[ln + 1]
+        try:
+          val = int(lit.strip())
+        except ValueError:
+          continue
+        if val not in by_value:
+          continue
+        e, sc = by_value[val]
+        if last.get((e['full'], sc)) != val:
+          fail('reported-name-does-not-resolve-back', 'config_str() reports %r = %d, a value that was overwritten' % (key, val))
+          continue
+        seen.add(val)
+        scope_, _, rest = key.rpartition('/')
+        sel, _, arg = rest.rpartition('.')
+        good, _ = nm.spellings(e)
+        got = outcome(lambda: gin.query_parameter(key))
+        if got != ('ok', val) or scope_ != sc or arg != e['arg'] or sel not in good:
+          fail('reported-name-does-not-resolve-back', 'config_str() reports %r = %d, the binding of %s%s.%s; query_parameter(%r) gives %r' %
+               (key, val, sc + '/' if sc else '', e['full'], e['arg'], key, got))
+        elif good and len(sel) > min(len(g) for g in good):
+          fail('reported-name-not-minimal', 'config_str() reports %r for %s although the shorter %r resolves to it' %
+               (key, e['full'], min(good, key=len)))
+      missing = sorted(v for (full, sc), v in last.items() if v not in seen and any(x['full'] == full for x in nm.entries))
+      if missing:
+        e, sc = by_value[missing[0]]
+        fail('reported-name-does-not-resolve-back', 'config_str() has no line for the binding %s%s.%s = %d:\n%s' %
+             (sc + '/' if sc else '', e['full'], e['arg'], missing[0], text[1][-500:]))
+
+    for step in case['steps']:
+      if fails:
+        break
+      kind = step[0]
+      if kind == 'fn':
+        if nm.add_fn(step[1], step[2]) != 'ok':
+          continue
+        ns = {'gin': gin, '__name__': case['pymod']}
+        exec('def %s(x=0):\n  return x\n' % step[2], ns)      # pylint: disable=exec-used
+        res = outcome(lambda: gin.external_configurable(ns[step[2]], name=step[2], module=step[1]))
+        if res[0] != 'ok':
+          fail('registration-refused', 'registering the function %s.%s gives %r' % (step[1], step[2], res))
+      elif kind == 'defcls':
+        if nm.def_cls(step[1], [tuple(m) for m in step[2]]) != 'ok':
+          continue
+        src = 'class %s:\n  def __init__(self, k=0):\n    self.k = k\n' % step[1]
+        for m, ex in step[2]:
+          src += '  @gin.register%s\n  def %s(self, x=0):\n    return x\n' % ('(module=%r)' % ex if ex else '', m)
+        ns = {'gin': gin, '__name__': case['pymod']}
+        res = outcome(lambda: exec(src, ns))                     # pylint: disable=exec-used
+        if res[0] != 'ok':
+          fail('registration-refused', 'defining class %s with registered methods %r gives %r' % (step[1], step[2], res))
+        pyobj[step[1]] = ns.get(step[1])
+      elif kind == 'regcls':
+        before = sorted(nm.names())
+        want = nm.reg_cls(step[1], step[2])
+        if want == 'clash':
+          continue
+        fn = gin.register if step[3] == 'register' else gin.external_configurable
+        res = outcome(lambda: fn(pyobj[step[1]], module=step[2]))
+        if want == 'refused':
+          tags.add('refused-class-registration')
+          if res[0] == 'ok':
+            tags.add('refusal-not-applied')
+            break                       # not what the documentation says; the names are then not known from the steps
+          continue
+        if res[0] != 'ok':
+          fail('registration-refused', 'registering class %s under module %r gives %r' % (step[1], step[2], res))
+          break
+        moved_any[0] = True
+        for old, new in nm.moved:
+          if old == new:
+            tags.add('moved-to-the-same-name')
+          elif any(n.endswith('.' + old) for n in before):
+            tags.add('removed-name-is-suffix-of-another')
+          for sc in ('', 's1', 's1/s2'):       # the parameter has a new complete name
+            if (old, sc) in last:
+              v = last.pop((old, sc))
+              by_value.pop(v, None)
+      elif kind == 'check':
+        check(step[1])
+    uniq, seen_f = [], set()
+    for f in fails:
+      if f not in seen_f:
+        seen_f.add(f)
+        uniq.append(f)
+    return {'obs': C.T('Done'), 'fails': uniq[:3],
+            'nontrivial': moved_any[0] and 'several-spellings' in tags and rounds[0] > 0,
+            'tags': sorted(tags) or ['plain']}
+
+
+ENGINES = [SelMap(), Spelling(), MacroSpelling(), ReportedNames(), RegistryMoves()]
